@@ -176,7 +176,7 @@ def reader_ranges(ctx, s, fn):
     return out
 
 
-def reader_width_agreement(ctx, s, fns, what="event"):
+def reader_width_agreement(ctx, s, fns, what="event", spec=None):
     """S-SIBLING: every reader of one position of the packed bytes reads the same number of bytes there.  Fixed-width
     reads (slices of constant width) in the given functions are grouped by their start position, written relative to the
     packed bytes (so `self.0[144 + tags_len ..]` in an accessor and `input[144 + tags_len ..]` in delineate are the same
@@ -194,11 +194,18 @@ def reader_width_agreement(ctx, s, fns, what="event"):
         for v in vals:
             if v is None:
                 continue
-            for x in find_values(v, lambda y: y[0] == "slice"):
-                k = strip_sites(x)
+            for x0 in find_values(v, lambda y: y[0] in ("slice", "elem")):
+                k = strip_sites(x0)
                 if k in seen:
                     continue
                 seen.add(k)
+                if x0[0] == "elem":
+                    # a single byte read at an index: a read of width 1 at that position
+                    x = ("slice", x0[1], x0[2], ("bin", "Add", x0[2], ("const", 1, "usize")))
+                    if x0[2][0] == "phi" or contains_value(x0[2], lambda y: y[0] == "phi"):
+                        continue        # a byte at a moving cursor is a scan, not a field
+                else:
+                    x = x0
                 base = x[1]
                 w = P.lin(("bin", "Sub", x[3], x[2]))
                 if w[1]:
@@ -213,6 +220,19 @@ def reader_width_agreement(ctx, s, fns, what="event"):
                 key = repr(rel(strip_sites(x[2])))
                 site = None
                 groups.setdefault(key, {}).setdefault(w[0], []).append((fn, x))
+                if spec:
+                    # positions whose width the layout fixes: (constant offset, follows-the-u16-at-that-offset) -> width
+                    st = P.lin(x[2])
+                    for (off, after_u16_at), width in spec.items():
+                        if st[0] == off and len(st[1]) == 1 and st[1][0][1] == 1:
+                            a = st[1][0][0]
+                            rd = find_values(a, lambda y: y[0] == "slice" and y[1] == base)
+                            if rd and P.lin(rd[0][2]) == (after_u16_at, ()) and P.lin(("bin", "Sub", rd[0][3], rd[0][2])) == (2, ()):
+                                if w[0] != width:
+                                    s.add("S-LAYOUT", fn, "field-width", "%s@%d+len" % (what, off), fn.sp, VIOLATION,
+                                          "the field after the variable-length section (at %d + the u16 length stored at %d) is %d bytes "
+                                          "wide in the layout every writer uses, but is read as %d bytes here: larger values are misread"
+                                          % (off, after_u16_at, width, w[0]))
     n = 0
     for key, widths in sorted(groups.items()):
         if len(widths) < 2:
